@@ -130,9 +130,9 @@ def fam_continuous(rng, n):
                     bad = f"length {len(g)} != n_points {k}"
                 elif any(isinstance(x, str) for x in g):
                     bad = "non-finite grid values"
-                elif abs(g[0] - a) > 1e-12 * max(1, abs(a)):
+                elif abs(g[0] - a) > 2e-6 * max(1, abs(a)):  # float32-safe: bool bounds give float32 arrays
                     bad = "first element is not start"
-                elif k >= 2 and abs(g[-1] - b) > 1e-12 * max(1, abs(b)):
+                elif k >= 2 and abs(g[-1] - b) > 2e-6 * max(1, abs(b)):
                     bad = "last element is not stop"
                 elif any(not g[j] < g[j + 1] for j in range(k - 1)):
                     bad = "not strictly increasing"
